@@ -15,6 +15,18 @@ LIT = re.compile(r"^[A-Za-z0-9:+._-]{1,48}$")
 EPSG_CODES = [4326, 3857, 3577, 32755, 28355, 4283, 3112, 32633, 2193, 3031, 4269, 7844]
 
 
+_TO_EPSG: Dict[str, Optional[int]] = {}
+
+
+def to_epsg_memo(p: pyproj.CRS) -> Optional[int]:
+    """pyproj's to_epsg(): a function of the definition (identifying a code-less system searches the whole
+    database, tens of milliseconds each), memoised per WKT text for the process"""
+    k = p.to_wkt()
+    if k not in _TO_EPSG:
+        _TO_EPSG[k] = p.to_epsg()
+    return _TO_EPSG[k]
+
+
 class World:
     def __init__(self, codes: List[int]):
         self.codes = codes
@@ -56,7 +68,7 @@ class World:
         srs = self.name(p.srs)
         wkt = self.name(p.to_wkt())
         self.wkt_names.add(wkt)
-        return {"sys": self.sys_of(p, text_for_rep), "srs": srs, "wkt": wkt, "epsg": p.to_epsg()}
+        return {"sys": self.sys_of(p, text_for_rep), "srs": srs, "wkt": wkt, "epsg": to_epsg_memo(p)}
 
     def add_text(self, text: str) -> str:
         n = self.name(text)
@@ -156,6 +168,29 @@ class World:
             if self.info[w]["epsg"] is not None or self.info[n]["epsg"] is not None:
                 continue
             self.codeless.append([("str", n), ("str", w), ("pyproj-text", n), ("str", self.add_text(p.to_json()))])
+        # authority:code spellings OTHER than EPSG, in several letter cases and with leading white space: odc-geo
+        # treats each spelling as a specification of its own (only EPSG strings are canonicalised), so each must
+        # keep its own string form whatever was constructed before
+        self.authcase: List[List[Tuple[str, Any]]] = []
+        for base in ("ESRI:54009", "ESRI:102001", "ESRI:53009", "ESRI:54030", "OGC:CRS27"):
+            fam = []
+            auth, code = base.split(":")
+            try:
+                if pyproj.CRS.from_user_input(base).to_epsg(min_confidence=20) is not None:
+                    continue
+            except Exception:  # pylint: disable=broad-except
+                continue
+            for s in (base, base.lower(), f"{auth.title()}:{code}", f"{auth.lower()}:{code}", " " + base, " " + base.lower(),
+                      "\t" + base):
+                try:
+                    pyproj.CRS.from_user_input(s)
+                except Exception:  # pylint: disable=broad-except
+                    continue
+                n = self.add_text(s)
+                if self.info[n] is not None and ("str", n) not in fam:
+                    fam.append(("str", n))
+            if len(fam) >= 2:
+                self.authcase.append(fam)
         # specs that pyproj rejects
         self.bad_names = [self.add_text("EPSG:999999"), self.add_text("not-a-crs")]
         self.einfo[999999] = None
